@@ -161,6 +161,11 @@ def run(ctx):
     R.check_result_guard(ctx, "E4.result", P, "BlsTimeCrypt::seal", "is_identity", ("param", "pk"))
     # signer <-> sealer agreement per scheme
     check_signer_sealer(ctx, P)
+    # a tampered ciphertext yields nothing - it does not abort (debug and release profile arithmetic)
+    from . import aborts as A
+
+    A.check_aborts(ctx, "E8", P, ["TimeCryptCiphertext<C>::decrypt"], scope="C13")
+    A.check_aborts(ctx, "E8", ctx.prog("blst", "nodebug"), ["TimeCryptCiphertext<C>::decrypt"], scope="C13", profile="nodebug")
     ctx.assume("Sha256 / Shake128 / pairing are deterministic functions; FO-transform security is a cryptographic assumption")
 
 
